@@ -515,7 +515,7 @@ func fCase(r *rig, kind int, scheme, urlhost string) (string, string) {
 }
 
 type reqSpec struct {
-	Kind    int    `json:"kind"` // 0 plain http, 1 CONNECT + inner, 2 https absolute-form, 3 inside a MITM'd tunnel
+	Kind    int    `json:"kind"` // 0 plain http, 1 CONNECT + inner, 2 https absolute-form, 3 inside a MITM'd tunnel, 4 origin-form GET (Host only)
 	URLHost string `json:"urlhost"`
 }
 
@@ -573,6 +573,10 @@ func eCase(r *rig, j *eJSON) string {
 			scheme, tscheme = "https", "https"
 		case 3:
 			scheme, tscheme = "", "https" // inside the MITM'd TLS session the proxy gives the request the https scheme
+		case 4:
+			if sess.inMITM {
+				tscheme = "https" // an origin-form request on the MITM'd session
+			}
 		}
 		o := sess.request(q.Kind, scheme, q.URLHost)
 		pacRes, directRes, isLH, hn := r.oracles(tgtKind, tscheme, q.URLHost, o.Pac)
@@ -694,14 +698,22 @@ func main() {
 	m.Counts["scases"] = ss.write("scases", "scase", "scase_model_ok", "scase_prop_ok", sc, sj)
 
 	// ---- D1
-	tokLen := 3
+	tokLen, nTok := 2, 2500
 	nGram, nMut := 2000, 800
 	if thorough {
-		tokLen, nGram, nMut = 3, 40000, 15000
+		tokLen, nTok, nGram, nMut = 3, 20000, 40000, 15000
 	}
 	m.TokenLen = tokLen
 	var pin []string
 	pin = append(pin, enumStrings(pacTokens, tokLen)...)
+	for i := 0; i < nTok; i++ { // longer token sequences, sampled
+		n := tokLen + 1 + r.Intn(3)
+		var sb strings.Builder
+		for k := 0; k < n; k++ {
+			sb.WriteString(r.Pick(pacTokens))
+		}
+		pin = append(pin, sb.String())
+	}
 	// entries "<KW> <hostport>" for every keyword x hostport of the pools
 	for _, k := range kwPool {
 		for _, h := range hpPool {
@@ -891,7 +903,7 @@ func genSession(r *rng.R, d *cfgDesc) eJSON {
 			h = r.Pick(partyHosts)
 			port = r.Pick([]string{"80", "80", "8080", "443"})
 		}
-		k := r.Pick([]string{"0", "0", "2", "3", "1"})
+		k := r.Pick([]string{"0", "0", "2", "3", "1", "4"})
 		q := reqSpec{Kind: int(k[0] - '0'), URLHost: hostPort(h, port)}
 		if q.Kind == 0 && port == "80" && r.Chance(1, 2) {
 			q.URLHost = h
